@@ -56,7 +56,7 @@ def gen_cases(ctx):
         nb = rng.randint(0, 6)
         boxes = [rbox(rng, vol, rng.random() < 0.8) for _ in range(nb)] if all(h > l for l, h in vol) else []
         cases.append({"kind": "direct", "sym": sym, "vol": vol, "boxes": boxes, "vol_pos": rng.randint(0, nb)})
-    for i in range(ctx.pick(12, 120)):
+    for i in range(ctx.pick(10, 120)):
         sym = list(SYMS[(7 * i + 3) % 27])
         shape = [rng.choice([4, 6, 8, 10]) if rng.random() < 0.9 else rng.choice([5, 7]) for _ in range(3)]
         vol = [[0, s] for s in shape]
@@ -68,8 +68,11 @@ def gen_cases(ctx):
 def run_cases(ctx, cases):
     d = [c for c in cases if c["kind"] == "direct"]
     p = [c for c in cases if c["kind"] == "place"]
-    od = core.run_impl_sharded(IMPL, d, shard=2, timeout=2000)
-    op = core.run_impl_sharded(IMPL, p, shard=ctx.pick(4, 6), timeout=3000) if p else []
+    from concurrent.futures import ThreadPoolExecutor
+    with ThreadPoolExecutor(2) as ex:
+        fd = ex.submit(core.run_impl_sharded, IMPL, d, 3, 2000)
+        fp = ex.submit(core.run_impl_sharded, IMPL, p, ctx.pick(5, 6), 3000) if p else None
+        od, op = fd.result(), (fp.result() if fp else [])
     it_d, it_p = iter(od), iter(op)
     return [next(it_d) if c["kind"] == "direct" else next(it_p) for c in cases]
 
